@@ -205,6 +205,9 @@ impl SimHook for SimCtl {
             .decider
             .borrow_mut()
             .chance(tag::PREEMPT, self.cfg.preempt_permille);
+        if std::env::var_os("VERIF_TRACE_PREEMPT").is_some() {
+            eprintln!("preempt? pid={} site={site} -> {yes}", _pid.0);
+        }
         if yes {
             self.count("preempt");
             self.count(match site {
